@@ -194,6 +194,7 @@ type Server struct {
 	// aof
 	aof       *os.File    // active aof file
 	aofdirty  atomic.Bool // mark the aofbuf as having data
+	aofgen    atomic.Int64 // number of completed aof rewrites
 	aofbuf    []byte      // prewrite buffer
 	aofsz     int         // active size of the aof file
 	shrinking bool        // aof shrinking flag
@@ -1447,6 +1448,11 @@ func (s *Server) command(msg *Message, client *Client) (
 		res, err = s.cmdSTATS(msg)
 	case "server":
 		res, err = s.cmdSERVER(msg)
+		if client != nil {
+			// a follower asks for the server state before it compares logs
+			// and requests the stream on this connection
+			client.aofgen = s.aofgen.Load() + 1
+		}
 	case "healthz":
 		res, err = s.cmdHEALTHZ(msg)
 	case "info":
@@ -1486,7 +1492,7 @@ func (s *Server) command(msg *Message, client *Client) (
 	case "output":
 		res, err = s.cmdOUTPUT(msg)
 	case "aof":
-		res, err = s.cmdAOF(msg)
+		res, err = s.cmdAOF(msg, client)
 	case "aofmd5":
 		res, err = s.cmdAOFMD5(msg)
 	case "gc":
